@@ -673,7 +673,16 @@ class Gen:
         f2 = {"name": "zp", "params": [{"n": "z", "ty": "Z0"}, {"n": "n", "ty": I32}, {"n": "v", "ty": "Z0"}, {"n": "m", "ty": I32}], "ret": I32,
               "body": blk([], {"e": "bin", "op": "sub", "l": {"e": "bin", "op": "mul", "l": var("n"), "r": self.int_lit(I32, self.r.randrange(2, 9))},
                                "r": var("m")})}
-        return [f1, f2]
+        # dt_P :: (c: bool) -> P { p : P = P.{..}; defer { p.a = k; }; if c { return p; } p.b = j; p }
+        # (the value a block / function produced is not changed by the defers that run afterwards)
+        pl = {"e": "rec", "ty": "P", "fs": [{"n": "a", "x": self.int_lit(I32, self.r.randrange(1, 90))}, {"n": "b", "x": self.int_lit(U8, self.r.randrange(1, 90))}]}
+        f3 = {"name": "dt_P", "params": [{"n": "c", "ty": BOOL}], "ret": REC_P,
+              "body": blk([{"s": "let", "n": "p", "x": pl, "ty": REC_P, "mut": True},
+                           {"s": "defer", "x": {"s": "set", "l": {"l": "fld", "x": {"l": "var", "n": "p"}, "f": "a"}, "x": self.int_lit(I32, self.r.randrange(100, 200))}},
+                           {"s": "if", "c": var("c"), "t": blk([{"s": "return", "x": var("p")}]), "f": NONE},
+                           {"s": "set", "l": {"l": "fld", "x": {"l": "var", "n": "p"}, "f": "b"}, "x": self.int_lit(U8, self.r.randrange(100, 200))}],
+                          var("p"))}
+        return [f1, f2, f3]
 
     def stmt_misc(self):
         """(a) a compound assignment whose destination has a side effect (evaluated once);
@@ -712,9 +721,25 @@ class Gen:
             else:
                 ss.append({"s": "print", "ty": I32, "x": {"e": "fld", "x": xv, "f": "k"}})
                 ss.append({"s": "print", "ty": BOOL, "x": {"e": "isvar", "x": {"e": "fld", "x": xv, "f": "o"}, "k": 2, "sty": ("opt", U8)}})
-        else:
+        elif k < 0.85:
             z = {"e": "rec", "ty": "Z0", "fs": []}
             ss.append({"s": "print", "ty": I32, "x": {"e": "call", "f": "zp", "args": [z, self.expr(I32), z, self.expr(I32)]}})
+        else:
+            # aggregate values of functions / labeled blocks whose defers write to what the value named
+            for c in (True, False):
+                v = self.fresh()
+                ss.append({"s": "let", "n": v, "ty": REC_P, "mut": False, "x": {"e": "call", "f": "dt_P", "args": [{"e": "bool", "v": c}]}})
+                ss.append({"s": "print", "ty": I32, "x": {"e": "fld", "x": {"e": "var", "n": v}, "f": "a"}})
+                ss.append({"s": "print", "ty": U8, "x": {"e": "fld", "x": {"e": "var", "n": v}, "f": "b"}})
+            q, v, lab = self.fresh(), self.fresh(), self.fresh("b")
+            t = ("arr", 2, I32)
+            qv = {"e": "var", "n": q}
+            inner = [{"s": "let", "n": q, "x": self.expr(t), "ty": t, "mut": True},
+                     {"s": "defer", "x": {"s": "set", "l": {"l": "idx", "a": {"l": "var", "n": q}, "i": self.index_lit(0)}, "x": self.expr(I32)}},
+                     {"s": "if", "c": self.expr(BOOL), "t": {"e": "blk", "label": "", "ss": [{"s": "break", "label": lab, "x": qv}], "tail": NONE}, "f": NONE}]
+            ss.append({"s": "let", "n": v, "ty": t, "mut": False, "x": {"e": "blk", "label": lab, "ss": inner, "tail": qv}})
+            for j in range(2):
+                ss.append({"s": "print", "ty": I32, "x": {"e": "idx", "a": {"e": "var", "n": v}, "i": self.index_lit(j)}})
         return ss
 
     def stmt_scast(self):
@@ -1340,6 +1365,8 @@ class Render:
             return ["return %s;" % self.expr(s["x"])]
         if k == "defer":
             inner = self.stmt(s["x"])
+            if s["x"]["s"] in ("set", "cset"):          # `defer` takes an expression: a block
+                return ["defer { %s };" % " ".join(inner)]
             return ["defer " + inner[0]] + inner[1:]
         raise ValueError(k)
 
